@@ -95,7 +95,11 @@ func roundContention(t vkit.TB, c Case) {
 	}
 	w := newPlainWorld(backend, nNodes)
 	defer w.close()
-	code, err := w.nodes[0].CreateConnectionCode(&services.CreateConnectionCodeRequest{TargetClientID: targetClient, TargetAddress: targetAddr, ActivationTTL: time.Hour, CreatedBy: "verif"})
+	ttl := time.Hour
+	if c.CodeTTL > 0 {
+		ttl = time.Duration(c.CodeTTL) * time.Second
+	}
+	code, err := w.nodes[0].CreateConnectionCode(&services.CreateConnectionCodeRequest{TargetClientID: targetClient, TargetAddress: targetAddr, ActivationTTL: ttl, CreatedBy: "verif"})
 	if err != nil {
 		vkit.Violation(t, "C06/harness/setup-failed", err.Error(), c)
 		return
@@ -147,7 +151,7 @@ func roundContention(t vkit.TB, c Case) {
 	if c.SameClient {
 		who = "one client"
 	}
-	detail := fmt.Sprintf("backend=%s, %d parallel activations by %s (+revoke=%v) of one fresh code over %d service stack(s): %d succeeded, revoke ok=%v, %d mapping record(s) stored [%s]", backend, c.NAct, who, c.Revoke, nNodes, successes, revokeOK, len(stored), outcomes)
+	detail := fmt.Sprintf("activation TTL %v, backend=%s, %d parallel activations by %s (+revoke=%v) of one fresh code over %d service stack(s): %d succeeded, revoke ok=%v, %d mapping record(s) stored [%s]", ttl, backend, c.NAct, who, c.Revoke, nNodes, successes, revokeOK, len(stored), outcomes)
 	class := fmt.Sprintf("contention/%s/%dA/revoke=%v/same-client=%v", backend, c.NAct, c.Revoke, c.SameClient)
 	pfx := "C06/contention/backend=" + backend + "/"
 	switch {
@@ -162,7 +166,7 @@ func roundContention(t vkit.TB, c Case) {
 	case successes == 0 && !revokeOK:
 		vkit.Violation(t, pfx+"nobody-won-a-valid-code", detail, c)
 	default:
-		vkit.Case(class, true, fmt.Sprintf("%s|%d|%v|%v|%v", backend, c.NAct, c.Revoke, c.SameClient, c.SecondNode))
+		vkit.Case(class, true, fmt.Sprintf("%s|%d|%v|%v|%v|%d", backend, c.NAct, c.Revoke, c.SameClient, c.SecondNode, c.CodeTTL))
 		vkit.Class(fmt.Sprintf("contention-outcome:successes=%d,revoke_ok=%v", successes, revokeOK))
 	}
 }
@@ -175,6 +179,7 @@ func TestContention(t *testing.T) {
 			Revoke:     rapid.IntRange(0, 2).Draw(t, "revoke") == 0,
 			SameClient: rapid.IntRange(0, 3).Draw(t, "sameClient") == 0,
 			SecondNode: rapid.Bool().Draw(t, "twoStacks"),
+			CodeTTL:    rapid.SampledFrom(append([]int{0}, codeTTLs...)).Draw(t, "codeTTLSeconds"),
 		}
 		roundContention(t, c)
 	})
